@@ -113,6 +113,15 @@ def _lazy(g, mod, level, names):
             dict.__delitem__(g, alias)
 
 
+def _touch(g, names):
+    """resolve lazily imported names now (class bodies read globals without the lazy hook)"""
+    for n in names:
+        try:
+            g[n]
+        except KeyError:
+            pass
+
+
 class Universe:
     def __init__(self, stubs=None, root=ROOT, real_modules=()):
         """stubs: {'Name': obj} or {('module', 'Name'): obj}; real_modules: module-name prefixes to import for real"""
@@ -175,6 +184,7 @@ class Universe:
         g['_sx_'] = self.sx
         g['_sx_uni_'] = self
         g['_sx_lazy_'] = _lazy
+        g['_sx_touch_'] = _touch
         g['__package__'] = modname.rsplit('.', 1)[0]
         self.modules[modname] = m
         self.loaded_files.append(os.path.relpath(path, self.root))
@@ -225,19 +235,31 @@ class Universe:
                     full = basepkg + ('.' + mod if mod else '')
                 else:
                     full = mod
+                pairs = []
+                for w in what.strip('()').split(','):
+                    w = w.strip()
+                    if not w:
+                        continue
+                    if ' as ' in w:
+                        o_, a_ = [t.strip() for t in w.split(' as ')]
+                    else:
+                        o_, a_ = w, w
+                    pairs.append((o_, a_))
+                alias = {a_: o_ for o_, a_ in pairs}
                 if not full.startswith('cherab'):
+                    if name in alias:
+                        return ('ext', full, alias[name])
                     continue
-                names = [w.strip().split(' as ')[-1].strip() for w in what.strip('()').split(',')]
-                if what == '*' or name in names:
+                if what == '*' or name in alias:
                     path, is_pkg = self.find(full)
                     if path is None:
                         continue
                     if is_pkg:
-                        r = self.find_in_package(full, name, seen)
+                        r = self.find_in_package(full, alias.get(name, name), seen)
                         if r:
                             return r
-                    elif self.defines(full, name):
-                        return full
+                    elif self.defines(full, alias.get(name, name)):
+                        return ('ext', full, alias.get(name, name)) if name in alias and alias[name] != name else full
         return None
 
     def all_names(self, modname):
@@ -271,6 +293,8 @@ class Universe:
             where = self.find_in_package(modname, name)
             if where is None:
                 return Unresolved(modname, name)
+            if isinstance(where, tuple):
+                return self.resolve(where[1], where[2])
             return getattr(self.load(where), name)
         if modname == 'libc.math' or modname == 'math' and False:
             return rt.libc_math(name)
